@@ -63,8 +63,7 @@ func classify(err error) string {
 	if err == nil {
 		return "ok"
 	}
-	var m desync.ChunkMissing
-	if errors.As(err, &m) {
+	if _, ok := err.(desync.ChunkMissing); ok { // by dynamic type, as desync's consumers recognise it
 		return "missing"
 	}
 	var iv desync.ChunkInvalid
